@@ -1,42 +1,92 @@
 package convert
 
 import (
+	"errors"
+	"fmt"
+
 	"github.com/akrennmair/updog"
 	proto "github.com/akrennmair/updog/proto/updog/v1"
 )
 
-func ToQuery(pbq *proto.Query) *updog.Query {
-	return &updog.Query{
-		Expr:    toExpr(pbq.Expr),
-		GroupBy: pbq.GroupBy,
+// ToQuery converts a protobuf query to a Query. Messages received over the wire may be
+// structurally incomplete (no expression, an expression without a value, an operator
+// without operand); those are reported as errors.
+func ToQuery(pbq *proto.Query) (*updog.Query, error) {
+	if pbq == nil {
+		return nil, errors.New("query is missing")
 	}
+
+	expr, err := toExpr(pbq.Expr)
+	if err != nil {
+		return nil, err
+	}
+
+	return &updog.Query{
+		Expr:    expr,
+		GroupBy: pbq.GroupBy,
+	}, nil
 }
 
-func toExpr(pbe *proto.Query_Expression) updog.Expression {
+func toExpr(pbe *proto.Query_Expression) (updog.Expression, error) {
+	if pbe == nil {
+		return nil, errors.New("expression is missing")
+	}
+
 	switch v := pbe.Value.(type) {
 	case *proto.Query_Expression_Eq:
+		if v.Eq == nil {
+			return nil, errors.New("comparison is missing")
+		}
+
 		return &updog.ExprEqual{
 			Column: v.Eq.Column,
 			Value:  v.Eq.Value,
-		}
+		}, nil
 	case *proto.Query_Expression_Not_:
-		return &updog.ExprNot{
-			Expr: toExpr(v.Not.Expr),
+		if v.Not == nil {
+			return nil, errors.New("not expression is missing")
 		}
+
+		expr, err := toExpr(v.Not.Expr)
+		if err != nil {
+			return nil, err
+		}
+
+		return &updog.ExprNot{
+			Expr: expr,
+		}, nil
 	case *proto.Query_Expression_And_:
+		if v.And == nil {
+			return nil, errors.New("and expression is missing")
+		}
+
 		e := &updog.ExprAnd{}
 		for _, ee := range v.And.Exprs {
-			e.Exprs = append(e.Exprs, toExpr(ee))
+			expr, err := toExpr(ee)
+			if err != nil {
+				return nil, err
+			}
+
+			e.Exprs = append(e.Exprs, expr)
 		}
-		return e
+		return e, nil
 	case *proto.Query_Expression_Or_:
+		if v.Or == nil {
+			return nil, errors.New("or expression is missing")
+		}
+
 		e := &updog.ExprOr{}
 		for _, ee := range v.Or.Exprs {
-			e.Exprs = append(e.Exprs, toExpr(ee))
+			expr, err := toExpr(ee)
+			if err != nil {
+				return nil, err
+			}
+
+			e.Exprs = append(e.Exprs, expr)
 		}
-		return e
+		return e, nil
 	default:
-		return nil
+		return nil, fmt.Errorf("expression has no or an unknown value (%T)", v)
 	}
 }
 
